@@ -167,7 +167,7 @@ def real_scale(rep, b, tier, rng):
                     env["VERIF_READ_SCHED"] = sc
                 if sc == "1" and len(data) > 400_000:
                     continue
-                p = core.run([tool] + targs, inp=data, timeout=300, env=env)
+                p = core.run([tool] + targs, inp=data, timeout=300, env=env, max_out=4 * len(data) + (1 << 20))
                 nrun += 1
                 outl = p.stdout.split("\n")
                 if outl and outl[-1] == "":
